@@ -2,6 +2,8 @@
 
 package flags
 
+import "strconv"
+
 // C02 - all documented spellings of an option occurrence are interchangeable.
 
 type c02StrX struct {
@@ -210,6 +212,45 @@ func H_C02_pair(v *V) {
 	}
 }
 
+// H_C02_quoted: V written as a double-quoted Go string literal, in every
+// spelling, is interchangeable with the plain --name=V.
+func H_C02_quoted(v *V) {
+	kind := v.Shape("kind")
+	V := v.String(v.Shape("lv"))
+	// a plain V that itself starts with a quote would be read as a literal
+	v.Assume(!(len(V) > 0 && V[0] == '"'))
+	Q := strconv.Quote(V)
+	sp := v.Choice(spCount)
+	opts := vOptions(v, PassDoubleDash)
+	post := v.Choice(2)
+	build := func(sp int, val string) []string {
+		argv := vRender(nil, sp, c02Shorts[kind], "nm", val)
+		if post == 1 {
+			argv = append(argv, "z")
+		}
+		return argv
+	}
+	var keys []string
+	if kind == 6 {
+		keys = []string{refMapKey(V)}
+	}
+	a := c02Run(kind, opts, build(spLongEq, V), keys)
+	b := c02Run(kind, opts, build(sp, Q), keys)
+	if a.errNil {
+		v.Reach("success")
+	} else {
+		v.Reach("error")
+	}
+	v.ObserveStr("val", b.val)
+	v.Assert(a.errNil == b.errNil, "the quoted literal and the plain value both succeed or both fail")
+	v.Assert(a.typed == b.typed && a.etype == b.etype, "the quoted literal gives the same error type")
+	v.Assert(v.EqStr(a.val, b.val) && a.ival == b.ival && v.EqStrs(a.vals, b.vals), "the quoted literal stores the same value")
+	v.Assert(a.mapLen == b.mapLen && v.EqStrs(a.mapVals, b.mapVals), "the quoted literal stores the same map entry")
+	if a.errNil && b.errNil {
+		v.Assert(v.EqStrs(a.rest, b.rest), "the quoted literal leaves the same remaining arguments")
+	}
+}
+
 type c02Cluster struct {
 	A bool   `short:"a"`
 	B bool   `short:"b"`
@@ -280,4 +321,5 @@ func H_C02_cluster(v *V) {
 func init() {
 	vHarnesses["H_C02_pair"] = H_C02_pair
 	vHarnesses["H_C02_cluster"] = H_C02_cluster
+	vHarnesses["H_C02_quoted"] = H_C02_quoted
 }
